@@ -109,7 +109,7 @@ def mk_frames(code_id, n, start, rc, mode):
         if mode == "plus":
             s, st0 = bases, start
         else:
-            s = [COMP[int(b)] if W.PLAIN else (2 if b == 0 else 3 if b == 1 else 0 if b == 2 else 1) for b in reversed(bases)]
+            s = [(b + 2) % 4 for b in reversed(bases)]  # complement in TCAG index space (T<->A, C<->G), no branching
             st0 = start if mode == "rc_documented" else (n - start) % 3
         want = [ncbi[16 * s[i] + 4 * s[i + 1] + s[i + 2]] if W.PLAIN else _lookup(ncbi, 16 * s[i] + 4 * s[i + 1] + s[i + 2]) for i in range(st0, len(s) - 2, 3)]
         if len(want) and not W.reach("codons"):
